@@ -141,9 +141,10 @@ def replay_concat(w):
         values = []
     elif n == 1 and not w.get("first_is_str", True):
         values = [_Opaque()]
-    elif text is None:
+    elif text is None and w.get("escaping"):
         return (None, f"no native input known that makes ast.literal_eval raise {exc}")
     else:
+        text = text or "[1, 2]"
         values = split_text(text, n)
         if n >= 2 and not w.get("first_is_str", True) and text == "[1, 2]":
             values = [1, 2] + ([""] * (n - 2))
@@ -384,7 +385,7 @@ class NativeConcat(Renamed, VC):
     def finding_key(self, res):
         w = res.witness or {}
         if w.get("escaping"):
-            return f"uncaught {w['escaping']} from {w.get('from', '?')}"
+            return f"uncaught {w['escaping']}"
         return f"value:{w.get('shape')}:n={w.get('n')}"
 
     def replay(self, w):
@@ -456,6 +457,16 @@ def replay_render(w):
     cases = [("{{ x + 1 }}", {"x": 1}, [2]), ("{{ x }}", {"x": _OPQ}, [_OPQ]), ("[{{ x }}, {{ y }}]", {"x": 1, "y": 2}, ["[", 1, ", ", 2, "]"]),
              ("{{ x }} * {{ y }}", {"x": 4, "y": 2}, [4, " * ", 2]), ("", {}, [])]
     env = NativeEnvironment(enable_async=is_async)
+    if not (mode == "render_async" and not is_async):
+        try:
+            t = env.from_string("{{ 1 // x }}")
+            got = asyncio.run(t.render_async(x=0)) if mode == "render_async" else t.render(x=0)
+            return (True, f"NativeEnvironment(enable_async={is_async}): {mode} of '{{{{ 1 // x }}}}' with x=0 returns {got!r} instead of raising ZeroDivisionError")
+        except ZeroDivisionError:
+            pass
+        except Exception as ex:
+            if not (is_async and mode == "render"):
+                return (True, f"{mode} of '{{{{ 1 // x }}}}' with x=0 raises {type(ex).__name__}: {ex}")
     for src, ctx, nodes in cases:
         want = ref_native(nodes)
         try:
@@ -640,6 +651,20 @@ def replay_codegen(w):
         want = ref_native(want_nodes)
         if not same(got, want):
             probs.append(f"{src!r} renders {got!r}, documented {want!r}")
+    try:
+        r = env.from_string("{{ [1, 2]|reverse }}").render()
+        if isinstance(r, str) or list(r) != [2, 1]:
+            probs.append(f"'{{{{ [1, 2]|reverse }}}}' (a constant without safe repr) renders {r!r}, documented: the iterator itself")
+    except Exception as ex:
+        probs.append(f"'{{{{ [1, 2]|reverse }}}}' raises {type(ex).__name__}: {ex}")
+    try:
+        fenv = NativeEnvironment(finalize=lambda v: "F" if (v == 7 or v == "a") else v)
+        for src, ctx, want_nodes in [("a{{ x }}", {"x": 7}, ["a", "F"]), ("{{ x }}", {"x": 7}, ["F"]), ("7{{ 7 }}", {}, ["7F"]), ("{{ x }}{{ y }}", {"x": 1, "y": 7}, [1, "F"])]:
+            got = fenv.from_string(src).render(**ctx)
+            if not same(got, ref_native(want_nodes)):
+                probs.append(f"finalize environment: {src!r} renders {got!r}, documented {ref_native(want_nodes)!r}")
+    except Exception as ex:
+        probs.append(f"finalize environment: {type(ex).__name__}: {ex}")
     return (bool(probs), "; ".join(probs) or "generated code of the replay templates has no str()/escape() wrapper and renders as documented")
 
 
@@ -779,7 +804,7 @@ class ChildPrePost(GenBase):
         self.gen = A.obj(st, N.NativeCodeGenerator, "self")
         self.node = A.obj(st, nodes.Const, "node")
         self.frame = A.obj(st, GFrame, "frame")
-        self.src = sym("finalize_src", "str") if self.has_src else None
+        self.src = "environment.finalize(context, " if self.has_src else None
         self.fin = A.obj(st, Finfo, "finalize", fields={"src": self.src})
         return [self.gen, self.node, self.frame, self.fin], {}
 
@@ -790,7 +815,7 @@ class ChildPrePost(GenBase):
         if not self.has_src:
             return ws == []
         if self.method == "_output_child_pre":
-            return len(ws) == 1 and len(ws[0]) == 1 and ws[0][0] is self.src
+            return ws == [(self.src,)]
         return ws == [(")",)]
 
     posts = [("only_finalize_wrapper", p_writes)]
@@ -840,8 +865,8 @@ def failure_key(mode, ex):
     import traceback
     tb = traceback.extract_tb(ex.__traceback__)
     fr = [f for f in tb if "jinja2" in f.filename.replace("\\", "/")]
-    where = f"{fr[-1].name}: {fr[-1].line}" if fr else "?"
-    return f"{mode}|{type(ex).__name__}|{where}"
+    where = fr[-1].name if fr else "?"
+    return f"{mode}|{type(ex).__name__}|{where}|{str(ex)[:40]}"
 
 
 def render_modes(src, ctx, envs, loop):
@@ -896,9 +921,9 @@ def bounded_render(task, tier, seed):
                        f"(non-literal object included), each rendered with render, render_async and render in an async-enabled environment: {n_cases} renders")
     task.stats = {"renders": n_cases, "failing_classes": len(failures)}
     rs = [Res("C34.bounded.render", "bounded-ok", "native", 0, f"{n_cases} renders, {n_cases - sum(f['count'] for f in failures.values())} agree with the reference", "bounded")]
-    for key, f in sorted(failures.items()):
+    for k, (key, f) in enumerate(sorted(failures.items())):
         w = dict(f["witness"], key=key)
-        rs.append(Res("C34.bounded.render", "refuted", "native", 0, f"{f['count']} renders fail like: {f['detail']}", "bounded", w))
+        rs.append(Res(f"C34.bounded.render#p{k}", "refuted", "native", 0, f"{f['count']} renders fail like: {f['detail']}", "bounded", w))
     return rs
 
 
